@@ -20,7 +20,9 @@ for sid in ids:
         out = p.stdout.decode("utf-8", "replace")
         viol = [l for l in out.split("\n") if l.startswith("VIOLATION")]
         why = [l[2:] for l in out.split("\n") if l.startswith("# ")]
-        if viol:
+        if "PATCH-DOES-NOT-APPLY" in out:
+            res[prop] = "patch no longer applies to the current tree (the code it touches was rewritten by a later fix: commit)"
+        elif viol:
             kind = "no-failing-input-found" if all("no-failing-input-found" in v for v in viol) else "concrete input"
             res[prop] = {"caught": True, "kind": kind, "what": (why[0] if why else "")[:300], "wall_s": round(time.time() - t)}
         else:
